@@ -1,6 +1,6 @@
 (* C19 — the frequency estimator never under-counts within an aging period.
    Only statements closed by `exact`, plus Print Assumptions. *)
-Require Import KV.Base KV.Gen.Consts KV.Nibble KV.EstimatorModel KV.EstimatorProofs.
+Require Import KV.Base KV.Gen.Consts KV.Nibble KV.EstimatorModel KV.EstimatorProofs KV.GhostModel KV.GhostProofs.
 Open Scope N_scope.
 
 (* Between aging events: for every sequence of recorded fingerprints and every fingerprint h,
@@ -45,6 +45,34 @@ Theorem c19_nibble_age : forall w j, w < 18446744073709551616 -> (j < 16)%nat ->
   w' < 18446744073709551616 /\ Nibble.nib w' (4 * N.of_nat j) = Nibble.nib w (4 * N.of_nat j) / 2.
 Proof. exact nib_age. Qed.
 
+
+(* ---- ghost lists: the ring + open-addressed index refines an abstract FIFO ring, for every
+   capacity n >= 1, every index size 2^k >= 2n, every add/remove/contains/clear sequence, and
+   every hash function used for the probe start (avalanche is never unfolded in the proofs) ---- *)
+Theorem c19_ghost_refines_ring : forall ops g r, R g r ->
+  run_out g_step g ops = run_out a_step r ops /\ R (run_state g_step g ops) (run_state a_step r ops).
+Proof. exact run_refines. Qed.
+
+Theorem c19_ghost_new : forall (n : nat) (k : N), (1 <= n)%nat -> 2 * N.of_nat n <= 2 ^ k ->
+  R (new_ghost (N.of_nat n) (2 ^ k)) (a_new n).
+Proof. exact new_ghost_refines. Qed.
+
+(* index probes always terminate (the fuel never runs out) *)
+Theorem c19_ghost_never_errs : forall (n : nat) (k : N) ops, (1 <= n)%nat -> 2 * N.of_nat n <= 2 ^ k ->
+  gerr (run_state g_step (new_ghost (N.of_nat n) (2 ^ k)) ops) = false.
+Proof. exact ghost_never_errs. Qed.
+
+(* FIFO window: a fingerprint is remembered iff it is among the last n ACCEPTED adds (adds of a
+   fingerprint absent at the time) and was not removed since; re-adding a present one does not refresh it *)
+Theorem c19_ghost_fifo : forall (n : nat) (k : N) ops h, (1 <= n)%nat -> 2 * N.of_nat n <= 2 ^ k ->
+  g_contains (run_state g_step (new_ghost (N.of_nat n) (2 ^ k)) ops) h =
+  live_in n (fold_left (h_step n) ops []) h.
+Proof. exact ghost_fifo_window. Qed.
+
+Theorem c19_ghost_capacity_zero : forall g h, ghost_disabled g = true ->
+  g_contains g h = false /\ g_add g h = g /\ g_remove g h = (g, false).
+Proof. exact ghost_disabled_inert. Qed.
+
 (* The constants written into the model are the ones compiled into /repo (T-gen). *)
 Theorem c19_constants_as_modelled :
   (Z.of_N agingMask = sketchAgingMaskHi * 2 ^ 32 + sketchAgingMaskLo)%Z /\
@@ -60,3 +88,8 @@ Print Assumptions c19_constructor_wf.
 Print Assumptions c19_nibble_bump.
 Print Assumptions c19_nibble_age.
 Print Assumptions c19_constants_as_modelled.
+Print Assumptions c19_ghost_refines_ring.
+Print Assumptions c19_ghost_new.
+Print Assumptions c19_ghost_never_errs.
+Print Assumptions c19_ghost_fifo.
+Print Assumptions c19_ghost_capacity_zero.
